@@ -172,9 +172,9 @@ Definition drop_existing (x : tubname) (s : state) : state :=
   | None => s
   end.
 
-(* connectionLost delivered at x's end of c *)
-Definition conn_lost (x : tubname) (c : nat) (s : state) : state :=
-  let k := conns s c in
+(* connectionLost delivered at x's end of c (`pre` = what happens to the queues in the same step) *)
+Definition conn_lost (x : tubname) (c : nat) (pre : conn -> conn) (s : state) : state :=
+  let k := pre (conns s c) in
   let s1 := set_conns (upd (conns s) c (set_end x ELost k)) s in
   match cend x k with
   | EBrk => match t_broker (tubof x s1) with
@@ -209,7 +209,7 @@ Definition deliver_m (c : nat) (s : state) : state :=
   | m :: _ =>
     let s0 := set_conns (upd (conns s) c (pop_sm k)) s in
     match m with
-    | Fin => match c_m k with ELost => s0 | _ => conn_lost TM c s0 end
+    | Fin => match c_m k with ELost => s0 | _ => conn_lost TM c pop_sm s end
     | Hello inc last =>
       match c_m k with
       | ENeg =>
@@ -224,7 +224,7 @@ Definition deliver_m (c : nat) (s : state) : state :=
       | _ => s0
       end
     | _ => match c_m k with
-           | ENeg => set_conns (upd (conns s0) c (lose TM (conns s0 c))) s0
+           | ENeg => set_conns (upd (conns s) c (lose TM (pop_sm k))) s
            | _ => s0 end
     end
   end.
@@ -237,27 +237,27 @@ Definition deliver_s (c : nat) (s : state) : state :=
   | m :: _ =>
     let s0 := set_conns (upd (conns s) c (pop_ms k)) s in
     match m with
-    | Fin => match c_s k with ELost => s0 | _ => conn_lost TS c s0 end
+    | Fin => match c_s k with ELost => s0 | _ => conn_lost TS c pop_ms s end
     | Hello _ _ =>
       match c_s k with
-      | ENeg => set_conns (upd (conns s0) c (set_end TS EDec (conns s0 c))) s0
-      | EDec => set_conns (upd (conns s0) c (lose TS (conns s0 c))) s0
+      | ENeg => set_conns (upd (conns s) c (set_end TS EDec (pop_ms k))) s
+      | EDec => set_conns (upd (conns s) c (lose TS (pop_ms k))) s
       | _ => s0
       end
     | Decision inc seq =>
       match c_s k with
       | EDec =>
-        let s1 := drop_existing TS s0 in
+        let s1 := drop_existing TS s in
         let t := ts s1 in
         let t1 := mktub (t_inc t) (t_broker t) (t_bir t) (t_bseq t) (t_master t) (Some (inc, seq)) (t_connector t)
                         (t_gen t) (t_waiters t) (t_fired t) (t_issued t) in
-        attach TS c (mkstate (tm s1) t1 (upd (conns s1) c (set_end TS EBrk (conns s1 c))) (nconn s1))
-      | ENeg => set_conns (upd (conns s0) c (lose TS (conns s0 c))) s0
+        attach TS c (mkstate (tm s1) t1 (upd (conns s1) c (set_end TS EBrk (pop_ms (conns s1 c)))) (nconn s1))
+      | ENeg => set_conns (upd (conns s) c (lose TS (pop_ms k))) s
       | _ => s0
       end
     | ErrorBlk =>
       match c_s k with
-      | ENeg | EDec => set_conns (upd (conns s0) c (lose TS (conns s0 c))) s0
+      | ENeg | EDec => set_conns (upd (conns s) c (lose TS (pop_ms k))) s
       | _ => s0
       end
     end
@@ -272,7 +272,7 @@ Definition close_pending (x : tubname) (k : conn) : bool :=
   end.
 
 Definition do_closeseen (c : nat) (x : tubname) (s : state) : state :=
-  if close_pending x (conns s c) then conn_lost x c s else s.
+  if close_pending x (conns s c) then conn_lost x c (fun k => k) s else s.
 
 Definition cut_conn (k : conn) : conn := mkconn (c_client k) (c_gen k) (c_m k) (c_s k) [] [] true.
 Definition do_cut (c : nat) (s : state) : state := set_conns (upd (conns s) c (cut_conn (conns s c))) s.
